@@ -76,9 +76,21 @@ class Canon(ast.NodeTransformer):
     def visit_FunctionDef(self, node):
         skip = node.name in ("__eq__", "__ne__")
         self._skip += skip
+        self._fdepth = getattr(self, "_fdepth", 0) + 1
         self.generic_visit(node)
+        self._fdepth -= 1
         self._skip -= skip
         return node
+
+    def visit_AnnAssign(self, node):
+        """inside a function `x: T = v` is `x = v` and a bare `x: T` is nothing: one spelling, so that adding (or
+        removing) annotations on locals and instance attributes changes no verdict"""
+        self.generic_visit(node)
+        if getattr(self, "_fdepth", 0) <= 0:
+            return node
+        if node.value is None:
+            return ast.copy_location(ast.Pass(), node)
+        return ast.copy_location(ast.Assign(targets=[node.target], value=node.value), node)
 
     def visit_UnaryOp(self, node):
         self.generic_visit(node)
